@@ -122,6 +122,7 @@ type vcNode struct {
 	decided bool
 	slot     vcSlot // emulation of the ticker's single slot (consensus/ticker.go)
 	panicked string // reason class if a handleMsg/handleTimeout call panicked ("none" otherwise)
+	blockNames map[*types.Block]string // block objects of the state machine -> BlockID name of the parts they came from
 }
 
 // call f under recover(); production would crash the process here, the driver records it
@@ -134,6 +135,8 @@ func (n *vcNode) guarded(f func()) {
 				n.panicked = "committed an invalid block"
 			case vcContains(msg, "+2/3 prevoted for an invalid block"):
 				n.panicked = "+2/3 prevoted for an invalid block"
+			case vcContains(msg, "expected ProposalBlockParts header to be commit header"):
+				n.panicked = "parts header differs from commit header"
 			default:
 				if len(msg) > 80 {
 					msg = msg[:80]
@@ -224,13 +227,13 @@ func (n *vcNode) recordSign(t string, r int, v string, pol int, ok bool) {
 	}
 	held := map[string]bool{}
 	if cs.ProposalBlock != nil {
-		held[n.net.nameOfHash(cs.ProposalBlock.Hash())] = true
+		held[n.nameOfBlock(cs.ProposalBlock, cs.ProposalBlockParts)] = true
 	}
 	if cs.LockedBlock != nil {
-		held[n.net.nameOfHash(cs.LockedBlock.Hash())] = true
+		held[n.nameOfBlock(cs.LockedBlock, cs.LockedBlockParts)] = true
 	}
 	if cs.ValidBlock != nil {
-		held[n.net.nameOfHash(cs.ValidBlock.Hash())] = true
+		held[n.nameOfBlock(cs.ValidBlock, cs.ValidBlockParts)] = true
 	}
 	for h := range held {
 		sg.Held = append(sg.Held, h)
@@ -385,6 +388,27 @@ func vcNewNet(t *testing.T, in *vcInput, runID int) *vcNet {
 	net.register("Z0", z0, z0p)
 	z1, z1p := st.MakeBlock(1, []types.Tx{types.Tx("z1=1")}, types.NewCommit(0, 0, types.BlockID{}, nil), nil, byzProposer)
 	net.register("Z1", z1, z1p)
+	// twins: the same blocks under a second, equally decodable protobuf encoding (one unknown trailing field):
+	// same block hash, different part-set header, i.e. a different BlockID
+	for _, base := range []string{"Z0", "Z1"} {
+		bb := net.blocks[base]
+		pbb, err := bb.block.ToProto()
+		if err != nil {
+			t.Fatal(err)
+		}
+		bz, err := pbb.Marshal()
+		if err != nil {
+			t.Fatal(err)
+		}
+		bz = append(bz, 0x78, 0x01) // field 15, varint 1: unknown to tmproto.Block
+		tps := types.NewPartSetFromData(bz, types.BlockPartSizeBytes)
+		tb, err := vcDecodeBlock(tps)
+		if err != nil || string(tb.Hash()) != string(bb.block.Hash()) {
+			t.Fatalf("twin encoding of %s does not decode to the same block: %v", base, err)
+		}
+		net.blocks[base+"~"] = &vcBlock{name: base + "~", block: tb, parts: tps}
+		net.pshName[hex.EncodeToString(tps.Header().Hash)] = base + "~"
+	}
 	zx, _ := st.MakeBlock(1, []types.Tx{types.Tx("zx=1")}, types.NewCommit(0, 0, types.BlockID{}, nil), nil, byzProposer)
 	zx.AppHash = []byte("verif-bad-app-hash")
 	zxp := zx.MakePartSet(types.BlockPartSizeBytes)
@@ -430,9 +454,47 @@ func (net *vcNet) nameOfHash(h []byte) string {
 	return "?" + hex.EncodeToString(h[:4])
 }
 
-func (net *vcNet) nameOfBlockID(b types.BlockID) string { return net.nameOfHash(b.Hash) }
-func (net *vcNet) nameOfBlockIDProto(b tmproto.BlockID) string {
+// A BlockID is (block hash, part-set header): two encodings of one block ("Z0" and its twin "Z0~") share the hash
+// and differ in the header, so BlockIDs are named by their part-set header; the hash is the fallback.
+func (net *vcNet) nameOfBlockID(b types.BlockID) string {
+	if len(b.Hash) == 0 {
+		return "nil"
+	}
+	if n, ok := net.pshName[hex.EncodeToString(b.PartSetHeader.Hash)]; ok {
+		if blk, okb := net.blocks[n]; !okb || string(blk.block.Hash()) == string(b.Hash) {
+			return n
+		}
+	}
 	return net.nameOfHash(b.Hash)
+}
+func (net *vcNet) nameOfBlockIDProto(b tmproto.BlockID) string {
+	bid, err := types.BlockIDFromProto(&b)
+	if err != nil {
+		return net.nameOfHash(b.Hash)
+	}
+	return net.nameOfBlockID(*bid)
+}
+
+// name of a block object held by the state machine: the BlockID of the part set it was assembled from
+func (n *vcNode) nameOfBlock(b *types.Block, ps *types.PartSet) string {
+	if b == nil {
+		return "nil"
+	}
+	if n.blockNames == nil {
+		n.blockNames = map[*types.Block]string{}
+	}
+	if nm, ok := n.blockNames[b]; ok {
+		return nm
+	}
+	nm := n.net.nameOfHash(b.Hash())
+	if ps != nil && ps.IsComplete() {
+		cand := n.net.nameOfBlockID(types.BlockID{Hash: b.Hash(), PartSetHeader: ps.Header()})
+		if cand[0] != '?' {
+			nm = cand
+		}
+	}
+	n.blockNames[b] = nm
+	return nm
 }
 
 func (net *vcNet) nameOfPSH(h types.PartSetHeader) string {
@@ -572,12 +634,10 @@ func (n *vcNode) project() map[string]interface{} {
 	if rs.Proposal != nil {
 		p = map[string]interface{}{"r": int(rs.Proposal.Round), "v": net.nameOfBlockID(rs.Proposal.BlockID), "pol": int(rs.Proposal.POLRound)}
 	}
-	nameOf := func(b *types.Block) string {
-		if b == nil {
-			return "nil"
-		}
-		return net.nameOfHash(b.Hash())
-	}
+	// locked and valid blocks first: enterCommit may make the locked block the proposal block (same object)
+	lockedName := n.nameOfBlock(rs.LockedBlock, rs.LockedBlockParts)
+	validName := n.nameOfBlock(rs.ValidBlock, rs.ValidBlockParts)
+	propName := n.nameOfBlock(rs.ProposalBlock, rs.ProposalBlockParts)
 	partsHdr := "nil"
 	if rs.ProposalBlockParts != nil {
 		partsHdr = net.nameOfPSH(rs.ProposalBlockParts.Header())
@@ -631,13 +691,16 @@ func (n *vcNode) project() map[string]interface{} {
 	if cs.blockStore.Height() >= 1 {
 		if b := cs.blockStore.LoadBlock(1); b != nil {
 			decision = net.nameOfHash(b.Hash())
+			if bm := cs.blockStore.LoadBlockMeta(1); bm != nil {
+				decision = net.nameOfBlockID(bm.BlockID)
+			}
 		}
 	}
 	return map[string]interface{}{
 		"height": int(rs.Height), "round": int(rs.Round), "step": int(rs.Step),
-		"lockedR": int(rs.LockedRound), "lockedV": nameOf(rs.LockedBlock),
-		"validR": int(rs.ValidRound), "validV": nameOf(rs.ValidBlock),
-		"prop": p, "propBlock": nameOf(rs.ProposalBlock), "partsHdr": partsHdr,
+		"lockedR": int(rs.LockedRound), "lockedV": lockedName,
+		"validR": int(rs.ValidRound), "validV": validName,
+		"prop": p, "propBlock": propName, "partsHdr": partsHdr,
 		"ttp": rs.TriggeredTimeoutPrecommit, "commitR": int(rs.CommitRound),
 		"pv": pv, "pc": pc, "tracked": tracked, "decision": decision, "panic": n.panicked,
 	}
@@ -664,7 +727,11 @@ func (n *vcNode) decisionFacts() map[string]interface{} {
 			}
 		}
 	}
-	f := map[string]interface{}{"v": net.nameOfHash(b.Hash()), "valid": valid, "signers": signers,
+	storedAs := net.nameOfHash(b.Hash())
+	if bm := n.cs.blockStore.LoadBlockMeta(1); bm != nil {
+		storedAs = net.nameOfBlockID(bm.BlockID)
+	}
+	f := map[string]interface{}{"v": storedAs, "valid": valid, "signers": signers,
 		"commitFor": "nil", "commitRound": -1}
 	if sc != nil {
 		f["commitFor"] = net.nameOfBlockID(sc.BlockID)
